@@ -8,6 +8,7 @@ package mcp
 
 import (
 	"bufio"
+	"bytes"
 	"context"
 	"encoding/json"
 	"fmt"
@@ -314,13 +315,28 @@ func (t *stdioClientTransport) readLoop() {
 		}
 	}()
 
+	// Messages are newline-delimited. Reading line by line (rather than with one json.Decoder,
+	// whose first syntax error is sticky) lets the loop skip a malformed line and carry on,
+	// and end - instead of spinning - when the stream fails.
+	reader := bufio.NewReader(t.stdout)
 	for !t.closed.Load() {
-		var rawMessage json.RawMessage
-		if err := t.decoder.Decode(&rawMessage); err != nil {
-			if err == io.EOF || t.closed.Load() {
+		line, readErr := reader.ReadBytes('\n')
+		line = bytes.TrimSpace(line)
+		if len(line) == 0 {
+			if readErr != nil {
+				if readErr != io.EOF && !t.closed.Load() {
+					t.logger.Errorf("Error reading message: %v", readErr)
+				}
 				break
 			}
-			t.logger.Errorf("Error reading message: %v", err)
+			continue
+		}
+		rawMessage := json.RawMessage(line)
+		if !json.Valid(rawMessage) {
+			t.logger.Errorf("Error reading message: invalid JSON line (%d bytes)", len(line))
+			if readErr != nil {
+				break
+			}
 			continue
 		}
 
